@@ -14,7 +14,7 @@ ID = "C05"
 BUDGET = {"quick": 1800, "thorough": 60000}
 REQUIRED = ["contract:VertexList.add", "judged:shared-node", "judged:merged-pair-disjoint", "judged:insertion-order-pair",
             "judged:near-miss-kept-apart", "judged:slave-copy-shared-on-slave-side", "judged:direct-add-permuted-patches",
-            "judged:pairs-meeting-at-a-node", "judged:merge-declared-after-first-assembly", "judged:pairs:shared-master", "judged:pairs:chained", "judged:history:backport-then-one-operation-moved",
+            "judged:pairs-meeting-at-a-node", "judged:merge-declared-after-first-assembly", "judged:pairs:shared-master", "judged:pairs:chained", "judged:history:backport-then-one-operation-moved", "judged:assembly-with-projected-corners",
             "judged:all-insertion-orders-of-a-small-assembly"]
 MIN_KEYS = 40
 RULE = (
@@ -117,6 +117,10 @@ def gen_case(ctx):
     rng.shuffle(order2)
     case["order2"] = order2
     case["far"] = far
+    if rng.random() < 0.3:
+        for blk in blocks:
+            if rng.random() < 0.5:
+                blk["projected"] = rng.sample(range(8), rng.randint(1, 3))
     case["late_merge"] = rng.random() < 0.4
     case["bp_move"] = rng.randrange(1000) if rng.random() < 0.25 else None
     case["all_orders"] = rng.random() < 0.25
@@ -144,10 +148,14 @@ def build(case, cb, order, late_merge=False):
         op = cb.Loft(cb.Face(pts[:4]), cb.Face(pts[4:]))
         for side, name in blk["patches"].items():
             op.set_patch(side, name)
+        for c in blk.get("projected") or []:
+            op.project_corner(c, "geoP")  # (only some of the blocks that meet in a point project their corner)
         for a in range(3):
             op.chop(a, count=1)
         mesh.add(op)
         ops.append(op)
+    if any(blk.get("projected") for blk in case["blocks"]):
+        mesh.add_geometry({"geoP": ["type sphere", "origin (0 0 0)", "radius 5000"]})
     if late_merge:
         # history: pairs declared on an already assembled mesh, which is then cleared and assembled again
         mesh.assemble()
@@ -355,6 +363,8 @@ def run_case(ctx, case):
     if case["near"]:
         ctx.count("judged:near-miss-kept-apart")
     nslave_blocks = len({bi for v in slave_keys.values() for bi in v})
+    if any(blk.get("projected") for blk in case["blocks"]):
+        ctx.count("judged:assembly-with-projected-corners")
     if case.get("pair_style", "separate") != "separate":
         ctx.count("judged:pairs:" + case["pair_style"])
     ctx.key([lattice.contact_summary(case), len(case["pairs"]), case.get("pair_style"), nslave_blocks, bool(case["near"]), case["far"]], nontrivial=shared > 0)
